@@ -265,8 +265,7 @@ type entitySetSymbolRuntime struct {
 }
 
 func (symbol *entitySetSymbolRuntime) Current() []byte {
-	_, value := GetTypeAndValue(symbol.value)
-	return value
+	return typedCursorElement(symbol.value)
 }
 
 func (symbol *entitySetSymbolRuntime) Next() {
@@ -277,7 +276,7 @@ func (symbol *entitySetSymbolRuntime) Next() {
 
 func (symbol *entitySetSymbolRuntime) Seek(val []byte) {
 	if symbol.cursor != nil {
-		symbol.value, _ = symbol.cursor.Seek(val)
+		symbol.value, _ = symbol.cursor.Seek(PrependFieldType(TypeString, val))
 	}
 }
 
